@@ -648,6 +648,70 @@ mod verif_driver_compile {
         println!("VERIF-CASES fn=compile_mint_block n={n}");
     }
 
+    // ---- C10 (reproducibility, whole transaction): a template with several elements in EVERY list-like section compiled
+    // repeatedly through the public entry point gives byte-identical payloads, and the outputs keep their source order.
+    // BOUND: one template (3 inputs, 3 references, 3 collateral, 3 signers, 3 outputs, 2 mints + 1 burn over 2 policies,
+    // 2 withdrawals, 3 metadata entries, 3 Plutus witnesses, validity), 33 compilations.
+    #[test]
+    fn entry_point_reproducible() {
+        let mut n = 0;
+        let uref = |t: u8, i: u32| tx3_tir::model::core::UtxoRef { txid: vec![t; 32], index: i };
+        let mut tx = empty_tx();
+        tx.fees = num(321_000);
+        tx.inputs = vec![
+            tir::Input { name: "a".into(), utxos: tir::Expression::UtxoRefs(vec![uref(0x33, 1)]), redeemer: num(1) },
+            tir::Input { name: "b".into(), utxos: tir::Expression::UtxoRefs(vec![uref(0x11, 2), uref(0x22, 0)]), redeemer: tir::Expression::None },
+        ];
+        tx.references = vec![tir::Expression::UtxoRefs(vec![uref(0x77, 0), uref(0x55, 3)]), tir::Expression::UtxoRefs(vec![uref(0x66, 1)])];
+        tx.collateral = vec![tir::Collateral { utxos: tir::Expression::UtxoRefs(vec![uref(0x99, 0), uref(0x88, 1), uref(0xaa, 2)]) }];
+        tx.signers = Some(tir::Signers { signers: vec![tir::Expression::Bytes(vec![9; 28]), tir::Expression::Bytes(vec![3; 28]), tir::Expression::Bytes(vec![5; 28])] });
+        let addr = |k: u8| { let mut a = vec![0x61u8]; a.extend(vec![k; 28]); tir::Expression::Address(a) };
+        tx.outputs = vec![
+            tir::Output { address: addr(3), datum: tir::Expression::Struct(tir::StructExpr { constructor: 1, fields: vec![num(7)] }), amount: tir::Expression::Assets(vec![ada(3_000_000), tok(2, "B", 4)]), optional: false },
+            tir::Output { address: addr(1), datum: tir::Expression::None, amount: tir::Expression::Assets(vec![ada(2_000_000)]), optional: false },
+            tir::Output { address: addr(2), datum: tir::Expression::None, amount: tir::Expression::Assets(vec![ada(1_500_000), tok(1, "A", 9)]), optional: true },
+        ];
+        tx.mints = vec![tir::Mint { amount: tir::Expression::Assets(vec![tok(2, "B", 4)]), redeemer: num(2) }, tir::Mint { amount: tir::Expression::Assets(vec![tok(1, "A", 10)]), redeemer: num(3) }];
+        tx.burns = vec![tir::Mint { amount: tir::Expression::Assets(vec![tok(1, "A", 1)]), redeemer: tir::Expression::None }];
+        let reward = |k: u8| { let mut a = vec![0xe0u8]; a.extend(vec![k; 28]); tir::Expression::Address(a) };
+        tx.adhoc = vec![
+            adhoc("withdrawal", vec![("credential", reward(8)), ("amount", num(5)), ("redeemer", num(4))]),
+            adhoc("withdrawal", vec![("credential", reward(4)), ("amount", num(6)), ("redeemer", tir::Expression::None)]),
+            adhoc("plutus_witness", vec![("version", num(3)), ("script", tir::Expression::Bytes(vec![0x51, 1, 1, 0, 9]))]),
+            adhoc("plutus_witness", vec![("version", num(3)), ("script", tir::Expression::Bytes(vec![0x51, 1, 1, 0, 2]))]),
+            adhoc("plutus_witness", vec![("version", num(3)), ("script", tir::Expression::Bytes(vec![0x51, 1, 1, 0, 5]))]),
+        ];
+        tx.metadata = vec![tir::Metadata { key: num(674), value: tir::Expression::String("b".into()) }, tir::Metadata { key: num(1), value: num(2) }, tir::Metadata { key: num(99), value: tir::Expression::Bytes(vec![1, 2]) }];
+        tx.validity = Some(tir::Validity { since: num(100), until: num(200) });
+        let pparams = PParams {
+            network: Network::Testnet, min_fee_coefficient: 44, min_fee_constant: 155381, coins_per_utxo_byte: 4310,
+            cost_models: HashMap::from([(0u8, vec![0i64; 166]), (1u8, vec![0i64; 175]), (2u8, vec![0i64; 251])]),
+        };
+        let mut first: Option<Vec<u8>> = None;
+        for _ in 0..33 {
+            n += 1;
+            match quiet(|| entry_point(&tx, &pparams).map(|t| pallas::codec::minicbor::to_vec(&t).unwrap())) {
+                Ok(Ok(bytes)) => match &first {
+                    None => {
+                        // outputs keep their source order
+                        let decoded: primitives::Tx = pallas::codec::minicbor::decode(&bytes).unwrap();
+                        let got: Vec<u8> = decoded.transaction_body.outputs.iter().map(|o| match o { primitives::TransactionOutput::PostAlonzo(p) => p.address[1], _ => 0 }).collect();
+                        if got != vec![3, 1, 2] {
+                            witness("c10_cardano/entry_point#postcondition", "entry_point", "kitchen-sink template".into(), format!("output order {got:?}"), "outputs in source order [3, 1, 2]");
+                        }
+                        first = Some(bytes);
+                    }
+                    Some(f) => if *f != bytes {
+                        witness("c10_cardano/entry_point#reproducible", "entry_point", "kitchen-sink template (several elements in every list-like section)".into(), "two compilations of the same reduced template give different bytes".into(), "byte-identical payloads");
+                        break;
+                    },
+                },
+                other => { witness("c10_cardano/entry_point#postcondition", "entry_point", "kitchen-sink template".into(), format!("{:?}", other.map(|x| x.map(|b| b.len()))).chars().take(160).collect(), "Ok"); break; }
+            }
+        }
+        println!("VERIF-CASES fn=entry_point n={n}");
+    }
+
     // ---- C10 (reproducibility): collateral inputs come out in template order, the same in every compilation.
     // BOUND: 12 distinct collateral references, 33 repetitions.
     #[test]
